@@ -37,10 +37,13 @@ Module Words.
   Definition base_specifiers : list (list byte) :=
     List.map str_bytes ["b"; "o"; "x"; "d"; "sb"; "ub"; "so"; "uo"; "sx"; "ux"]%string.
   (* Keyword table of the default standard (VHDL-2008): every `Keyword` with
-     `introduced_in() <= VHDL2008`, i.e. all but `view`, `private`, `vpgk` (VHDL-2019).
+     `is_reserved_in(VHDL2008)` (introduced_in() <= VHDL2008 and not removed before it), i.e. all but
+     `view`, `private`, `vpkg` (VHDL-2019), and including `assume_guarantee`, `restrict_guarantee`, which
+     only VHDL-2008 reserves (commits 9360ea7, 6617c1d).
      The correspondence run compares it with the implementation word by word. *)
   Definition kw2008_words : list string :=
     ["abs"; "access"; "after"; "alias"; "all"; "and"; "architecture"; "array"; "assert"; "assume";
+     "assume_guarantee";
      "attribute"; "begin"; "block"; "body"; "buffer"; "bus"; "case"; "component"; "configuration";
      "constant"; "context"; "cover"; "default"; "disconnect"; "downto"; "else"; "elsif"; "end";
      "entity"; "exit"; "fairness"; "file"; "for"; "force"; "function"; "generate"; "generic";
@@ -48,12 +51,12 @@ Module Words.
      "linkage"; "literal"; "loop"; "map"; "mod"; "nand"; "new"; "next"; "nor"; "not"; "null"; "of";
      "on"; "open"; "or"; "others"; "out"; "package"; "parameter"; "port"; "postponed"; "procedure";
      "process"; "property"; "protected"; "pure"; "range"; "record"; "register"; "reject";
-     "release"; "rem"; "report"; "restrict"; "return"; "rol"; "ror"; "select"; "sequence";
+     "release"; "rem"; "report"; "restrict"; "restrict_guarantee"; "return"; "rol"; "ror"; "select"; "sequence";
      "severity"; "signal"; "shared"; "sla"; "sll"; "sra"; "srl"; "strong"; "subtype"; "then"; "to";
      "transport"; "type"; "unaffected"; "units"; "until"; "use"; "variable"; "vmode"; "vprop";
      "vunit"; "wait"; "when"; "while"; "with"; "xnor"; "xor"]%string.
   Definition kw2008 : list (list byte) := List.map str_bytes kw2008_words.
-  Definition kw2019_only : list (list byte) := List.map str_bytes ["view"; "private"; "vpgk"]%string.
+  Definition kw2019_only : list (list byte) := List.map str_bytes ["view"; "private"; "vpkg"]%string.
 End Words.
 Definition base_specifiers : list (list byte) := Words.base_specifiers.
 Definition kw2008 : list (list byte) := Words.kw2008.
@@ -344,7 +347,7 @@ Definition can_be_char (last : option kind) : bool :=
   end.
 
 (* identifier_or_keyword; `kws` = lower-case spellings of the keywords reserved under the
-   tokenizer's standard (`Kw::from_latin1(buf).filter(|kw| kw.introduced_in() <= standard)`) *)
+   tokenizer's standard (`Kw::from_latin1(buf).filter(|kw| kw.is_reserved_in(standard))`) *)
 Definition ident_kind (kws : list (list byte)) (t : list byte) : kind :=
   let l := map lower t in
   if existsb (beq_bytes l) kws then KKeyword l else KIdentifier.
